@@ -60,7 +60,7 @@ func init() {
 	oracles["c14.cli"] = oracleC14CLI
 	properties["C14"] = &Property{
 		ID:       "C14",
-		LeanMods: []string{"CrsProps.C14"},
+		LeanMods: []string{"CrsProps.C14", "CrsProps.C14Comp"},
 		Corr:     "K8 (chore.updateRules and each marker pattern alone vs Crs.Copyright), K0 (utf8.DecodeRune), K10 (update-copyright binary on sandbox trees)",
 		Rule: "conf/example files generated from marker lines of the five kinds in many spellings (old versions x.y.z, pre-release tags in either case, v prefix, build metadata, two components), " +
 			"near-miss markers, several markers per line, noise lines, CRLF; sequences of 1..3 (version, year) pairs drawn from the accepted grammar; non-trivial = the file contains at least one marker; distinct = distinct (file, sequence)",
